@@ -313,3 +313,113 @@ def check_init_once(ck, prog, rule, files=None):
                       f.name, nm, hit, m.describe_path(path)),
                   key="%s:%s:%s" % (rule.split("-", 1)[1], f.name, nm))
     return n
+
+
+ACCUM_EXCEPT = {
+    ("stream_decode", "header_size"): "stored once per Block Header, under `coder->pos == 0` (first byte of the header)",
+    ("file_info_decode", "temp_size"): "buffer fill level recomputed from temp_pos, which is itself persistent",
+    ("stream_decode_mt", "in_filled"): "cur_in_filled starts as thr->in_filled and is advanced by lzma_bufcpy(&cur_in_filled)",
+}
+
+
+def check_accumulators(ck, prog, rule, files=None):
+    """A member that a resumable state tests to decide its outcome, and that the same state stores to while it can
+    suspend and be re-entered, must be updated as a function of its old value (or reset to a constant): a value computed
+    only from what this call saw forgets the earlier calls, and the outcome then depends on how the input was sliced."""
+    from sa import resume
+    from .oblig import graph_for
+    n = 0
+    for f in sorted(prog.all_functions("liblzma"), key=lambda f: (f.file, f.line)):
+        if not f.blocks:
+            continue
+        base = f.file.rsplit("/", 1)[-1]
+        if files is not None and base not in files:
+            continue
+        try:
+            sw = resume.Resume(prog, f).find_switch()
+        except Exception:
+            sw = None
+        if not sw:
+            continue
+        try:
+            m = graph_for(prog, f, (), {}, None, False, resume=False)
+        except AnalysisBroken:
+            continue
+        g = m.g
+        seqs = {}
+        for nd in g.nodes:
+            sv = g.get(nd[1], "seq")
+            seqs.setdefault(nd[0], set()).update(sv or ())
+        reads = {}
+        for b in f.blocks.values():
+            if b.term and "cond" in b.term:
+                for x in ex.walk(b.term["cond"]):
+                    if x.get("k") == "mem" and ex.show(x).startswith("coder->"):
+                        for sq in seqs.get(b.id, ()):
+                            reads.setdefault(sq, set()).add(x["f"])
+        ok_val = m.rets.get("LZMA_OK", 0)
+        ck.saw_function(f)
+        for b, i, e in f.iter_elems():
+            for (l, r, op, node) in ex.writes(e):
+                ls = ex.strip(l)
+                if ls is None or ls.get("k") != "mem" or not ex.show(l).startswith("coder->") or op != "=" or r is None:
+                    continue
+                F = ls["f"]
+                if F == "sequence" or ex.const_val(r) is not None or ex.strip(r).get("k") == "enum":
+                    continue
+                seen_ids = set()
+
+                def mentions(x, depth=0):
+                    for y in ex.walk(x):
+                        if y.get("k") == "mem" and y["f"] == F:
+                            return True
+                        if y.get("k") == "var" and y.get("s") == "l" and depth < 2:
+                            d = guard.single_def(f, y.get("id"))
+                            if d is not None and id(d) not in seen_ids:
+                                seen_ids.add(id(d))
+                                if mentions(d, depth + 1):
+                                    return True
+                    return False
+                if mentions(r):
+                    continue
+                flagged = None
+                for nd in [x for x in g.nodes if x[0] == b.id]:
+                    sv = g.get(nd[1], "seq")
+                    if not sv or len(sv) != 1:
+                        continue
+                    S = list(sv)[0]
+                    if F not in reads.get(S, ()):
+                        continue
+                    st, seen, hit = [nd], set(), False
+                    while st and not hit:
+                        x = st.pop()
+                        if x in seen:
+                            continue
+                        seen.add(x)
+                        sx = g.get(x[1], "seq")
+                        if not sx or set(sx) != {S}:
+                            continue
+                        if x[0] == f.exit:
+                            rv = g.get(x[1], "$ret")
+                            if rv is None or ok_val in rv:
+                                hit = True
+                            continue
+                        for (d, lab) in g.succ.get(x, ()):
+                            if lab != "resume":
+                                st.append(d)
+                    if hit:
+                        flagged = S
+                        break
+                if flagged is None:
+                    continue
+                n += 1
+                exc = ACCUM_EXCEPT.get((f.name, F))
+                names = {v: k for k, v in m.enum.items()} if getattr(m, "enum", None) else {}
+                ck.ob(rule, "%s:%s@%s" % (f.name, F, ex.line(node)), exc is not None, common.where(f, node),
+                      ("exception: " + exc) if exc else
+                      "%s(): in state %s the member coder->%s is tested to decide the outcome, the state can return LZMA_OK "
+                      "and be re-entered, but `%s` computes the member only from what this call saw: what earlier calls "
+                      "contributed is forgotten, so the result depends on how the caller slices the input" % (
+                          f.name, names.get(flagged, flagged), F, ex.show(node)),
+                      key="%s:%s:%s" % (rule.split("-", 1)[1], f.name, F))
+    return n
